@@ -323,6 +323,16 @@ def executedPlanInPlaceOld (given : Option Bool) (callInPlace : Bool) : Bool :=
   | some p => p
   | none => callInPlace
 
+/-- `normalized_axes_tuple(axes, ndim)`: `None` = all axes, an integer = that one axis,
+negative entries count from the end; out-of-range or repeated entries are rejected. -/
+def normAxes (ndim : Nat) (axes : Option (List Int)) : Option (List Nat) :=
+  match axes with
+  | none => some (List.range ndim)
+  | some l =>
+    let r := l.map fun a => if a < 0 then a + (ndim : Int) else a
+    if r.all (fun a => 0 ≤ a && a < (ndim : Int)) && r.eraseDups.length == r.length
+    then some (r.map Int.toNat) else none
+
 /-- Constructors reject a forward sign `'+'` combined with `halfcomplex` (both operator
 families; `fwdPlus` is the sign of the FORWARD transform) and, for `FourierTransform`, a
 non-shifted halved axis. -/
